@@ -40,6 +40,8 @@ META = dict(
          "boundary-aimed, both strictness values, and integer c through declareAtom/initSolver for both orientations; "
          "normalisation: 1..5 summands, coefficients = small or boundary integers times a common factor (so that the gcd step "
          "fires), a quarter with rational coefficients (lcm step), constants integral / fractional / multiples of the factor ± 1; "
+         "rewriter cache: 2-6 div/mod applications over two dividends with divisors from {n,-n,m,-m} given to one DivModConfig and to DivModRewriter (sharing pattern of auxiliary pairs compared exactly, rewritten formula evaluated under the Euclidean extension), "
+         "QF_LIA scripts with 2-4 applications over one bounded dividend judged by enumeration; "
          "difference logic: SafeInt operands and constants around ±2^31, ±2^53, ±2^62, ±2^63; QF_IDL scripts "
          "x-y<=k1, y-x<=k2 with k1+k2 in {-2..1} around those boundaries. distinct = distinct case line",
 )
@@ -93,6 +95,22 @@ def gen_sum(rng):
     else:
         c = rand_rat(rng)
     return c, cs
+
+
+def euclid(n, d):
+    r = n % abs(d)
+    return (n - r) // d, r
+
+
+def gen_rewrite_case(rng):
+    """2..6 applications over dividends x0, x1 with divisors drawn from {n, -n, m, -m}: equal dividend with equal divisor,
+    with the opposite divisor, with another divisor, div together with mod."""
+    n = rng.choice([2, 3, 4, 5, 7, 10, 2 ** 31, 2 ** 32 + 1, 10 ** 20])
+    m = rng.choice([2, 3, 6, 9, 2 ** 31 - 1, 2 ** 53])
+    pool = [n, -n, n, -n, m, -m]
+    apps = ["%s:%d:%d" % (rng.choice("dm"), rng.choice([0, 0, 0, 1]), rng.choice(pool)) for _ in range(rng.randint(2, 6))]
+    xs = [numgen.rand_int(rng) if rng.random() < 0.6 else rng.randint(-40, 40) for _ in range(2)]
+    return "Y %s | %d %d" % (" ".join(apps), xs[0], xs[1])
 
 
 def eval_sum(cs, xs):
@@ -234,6 +252,10 @@ def run(ctx):
             q, r = numgen.rand_int(rng), numgen.rand_int(rng)
         add("X %d %d %d %d" % (n, d, q, r), "divmod-def:|d|=1" if abs(d) == 1 else "divmod-def", abs(d) != 1)
 
+    # several div/mod applications handed to one rewriter: the cache of auxiliary variable pairs
+    for _ in range(3000 * scale):
+        add(gen_rewrite_case(rng), "divmod-rewrite-cache")
+
     inp = "".join(l + "\n" for l, _, _ in lines)
     rc1, out_m = vlib.sh(exe_i, input=inp, timeout=2400)
     rc2, out_i = vlib.sh(h_i, input=inp, timeout=2400)
@@ -305,6 +327,7 @@ def run(ctx):
 
     # ------------------------------------------------------------------ end to end: QF_IDL scripts predicted by the model
     e2e(ctx, rng, exe_i, probe)
+    e2e_divmod(ctx, rng)
 
 
 def judge(ctx, rng, w, i):
@@ -368,6 +391,32 @@ def judge(ctx, rng, w, i):
         if i != exp:
             ctx.violation("safeint:%s" % ("add" if op == "A" else "sub"), "SafeInt %d %s %d = %s, expected %s" % (a, "+" if op == "A" else "-", b, i, exp),
                           dict(case=" ".join(w), impl=i, how=how))
+    elif op == "Y":
+        k = w.index("|")
+        apps, xs = w[1:k], list(map(int, w[k + 1:]))
+        fields = [f.strip() for f in i.split(";")]
+        pat = fields[0].split() if fields else []
+        # the value each auxiliary pair is forced to by its definitions = Euclidean quotient / remainder of the application
+        # that created it (divmod_def_characterise); an application replaced by a variable of another value has lost its meaning
+        owner = {}
+        bad = None
+        for a, pv in zip(apps, pat):
+            kind, nidx, d = a.split(":")
+            pair = pv[:-1]
+            owner.setdefault(pair, (int(nidx), int(d)))
+            on, od = owner[pair]
+            forced = euclid(xs[on], od)[0 if pv[-1] == "d" else 1]
+            own = euclid(xs[int(nidx)], int(d))[0 if kind == "d" else 1]
+            if forced != own or pv[-1] != kind:
+                bad = (a, pv, forced, own)
+                break
+        evals = fields[2].split() if len(fields) > 2 else []
+        if bad or "0" in evals:
+            what = ("the applications %s (x0=%d, x1=%d) are replaced by the variables %s; " % (" ".join(apps), xs[0], xs[1], " ".join(pat)))
+            if bad:
+                what += "%s is replaced by %s whose definitions force the value %d, but its SMT-LIB value is %d; " % bad
+            what += "the rewritten formula evaluates to %s under the Euclidean extension (the only one its definitions allow)" % "/".join(evals)
+            ctx.violation("divmod-rewrite:sharing", what, dict(case=" ".join(w), impl=i, how=how))
     elif op == "X":
         n, d, q, r = map(int, w[1:])
         exp = "1" if (n == d * q + r and 0 <= r <= abs(d) - 1) else "0"
@@ -423,4 +472,44 @@ def e2e(ctx, rng, exe_i, probe):
             ctx.tie_broken("e2e-idl-prediction", "k1=%d k2=%d model predicts %s, implementation %s, truth %s" % (k1, k2, pred, ans, truth),
                            dict(script=script))
     ctx.note("end-to-end QF_IDL scripts: %d, answered wrongly: %d" % (len(pairs), wrong))
-    ctx.samples = [SAMPLES[k] for k in ("fold", "T", "I", "E", "X", "e2e", "C", "B") if k in SAMPLES][:6]
+    ctx.samples = [SAMPLES[k] for k in ("fold", "T", "I", "Y", "X", "e2e", "E", "C", "B") if k in SAMPLES][:6]
+
+
+def e2e_divmod(ctx, rng):
+    """QF_LIA scripts with several div/mod applications over one bounded dividend; the answer is compared with the truth
+    obtained by enumerating the dividend under SMT-LIB (Euclidean) semantics."""
+    n_scripts = 40 if ctx.quick else 400
+    wrong = 0
+    for idx in range(n_scripts):
+        n = rng.choice([2, 3, 4, 5, 7])
+        m = rng.choice([2, 3, 6])
+        pool = [n, -n, n, -n, m, -m]
+        lo = rng.randint(-30, 20)
+        hi = lo + rng.randint(3, 12)
+        apps = [(rng.choice(["div", "mod"]), rng.choice(pool)) for _ in range(rng.randint(2, 4))]
+        cs = [rng.choice([1, -1, 1, 2]) for _ in apps]
+
+        def val(x):
+            return sum(c * euclid(x, d)[0 if k == "div" else 1] for c, (k, d) in zip(cs, apps))
+        vals = [val(x) for x in range(lo, hi + 1)]
+        kconst = rng.choice(vals) if rng.random() < 0.6 else rng.randint(min(vals) - 1, max(vals) + 1)
+        neg = rng.random() < 0.5
+        holds = [(v == kconst) != neg for v in vals]
+        truth = "sat" if any(holds) else "unsat"
+        terms = " ".join("(* %s (%s x %s))" % (lit(c), k, lit(d)) for c, (k, d) in zip(cs, apps))
+        atom = "(= (+ %s 0) %s)" % (terms, lit(kconst))
+        script = ("(set-logic QF_LIA)\n(declare-fun x () Int)\n(assert (and (<= %s x) (<= x %s)))\n(assert %s)\n(check-sat)\n"
+                  % (lit(lo), lit(hi), "(not %s)" % atom if neg else atom))
+        rc, so, se = vlib.run_opensmt(script, timeout=60)
+        ans = so.strip().split("\n")[-1] if so.strip() else "(none rc=%s)" % rc
+        ctx.case(key="divmod-script " + script, nontrivial=True, kind="e2e-divmod")
+        if idx == 3:
+            SAMPLES["e2e"] = SAMPLES.get("e2e") or dict(script=script, answer=ans, truth=truth)
+        if ans in ("sat", "unsat") and ans != truth:
+            wrong += 1
+            ctx.violation("divmod-rewrite:answer", "QF_LIA script with the applications %s over one dividend in [%d,%d] answered %s, is %s under "
+                          "SMT-LIB semantics" % (", ".join("(%s x %d)" % a for a in apps), lo, hi, ans, truth),
+                          dict(script=script, answer=ans, expected=truth))
+        elif ans not in ("sat", "unsat"):
+            ctx.tie_broken("e2e-divmod-run", "no answer: %s %s" % (so[-200:], se[-200:]), dict(script=script))
+    ctx.note("end-to-end QF_LIA div/mod scripts: %d, answered wrongly: %d" % (n_scripts, wrong))
